@@ -1,6 +1,7 @@
 /-
   MODEL, part 2: the database as a system — one committed store, at most one open write
-  transaction (LevelDB.muTr), read transactions that take no snapshot — and the interpretation of
+  transaction (LevelDB.muTr) reading the live store, a read transaction reading the goleveldb
+  snapshot taken by BeginReadTx (released by its Rollback) — and the interpretation of
   the operation language of MW.Base.KvOps with the functions of MW.Model.KV, exactly as the
   harness drives the real driver: every data operation navigates from the transaction
   (TopLevelBucket, then Bucket per further name) and then calls the bucket method.
@@ -124,23 +125,30 @@ def slotOf : Op → Option Slot
   | .pfx s _ _ | .names s _ | .iter s _ _ _ _ => some s
   | _ => none
 
+/-- tie B: the snapshot semantics of `Sys.reader` below is what leveldb.go does today – BeginReadTx
+    makes a goleveldb snapshot the transaction's reader, every read path goes through `tx.r`
+    (regenerated facts of MW.Gen.Kv; a changed driver breaks this obligation) -/
+theorem gen_readTxSnapshot :
+    Gen.Kv.readTxSnapshot = true ∧ Gen.Kv.readsBypassingReader = 0 ∧
+    Gen.Kv.readsThroughReader.all (fun e => decide (e.2 ≥ 1)) = true := by decide
+
 structure Sys where
   db : Store := []                 -- the on-disk store (survives Close + OpenDB)
   w : Option Batch := none         -- the batch of the open write transaction (muTr held)
-  reader : Bool := false           -- a read transaction is open
+  reader : Option Store := none    -- the goleveldb snapshot (tx.r / tx.snap) of the open read transaction
 
 def Sys.step (s : Sys) (op : Op) : Sys × Obs :=
   match op with
   | .beginW => if s.w.isSome then (s, .badop) else ({ s with w := some {} }, .ok)      -- BeginTx: lock, newBatch
-  | .beginR => if s.reader then (s, .badop) else ({ s with reader := true }, .ok)
+  | .beginR => if s.reader.isSome then (s, .badop) else ({ s with reader := some s.db }, .ok)   -- BeginReadTx: ldb.GetSnapshot()
   | .commit => match s.w with
       | none => (s, .badop)
       | some bt => ({ s with db := Tx.commit { readOnly := false, db := s.db, b := bt }, w := none }, .ok)
   | .rollback => match s.w with
       | none => (s, .badop)
       | some bt => ({ s with db := Tx.rollback { readOnly := false, db := s.db, b := bt }, w := none }, .ok)
-  | .endR => if s.reader then ({ s with reader := false }, .ok) else (s, .badop)
-  | .reopen => if s.w.isSome || s.reader then (s, .badop) else (s, .ok)
+  | .endR => if s.reader.isSome then ({ s with reader := none }, .ok) else (s, .badop)           -- Rollback: snap.Release()
+  | .reopen => if s.w.isSome || s.reader.isSome then (s, .badop) else (s, .ok)
   | .probe => (s, if s.w.isSome then .blocked else .acquired)                            -- muTr.Lock()
   | .raw => (s, .entries s.db)
   | op =>
@@ -151,8 +159,9 @@ def Sys.step (s : Sys) (op : Op) : Sys × Obs :=
       | none => (s, .notx)
       | some bt => let (o, tx') := dataOp { readOnly := false, db := s.db, b := bt } op; ({ s with w := some tx'.b }, o)
     | some .r =>
-      if !s.reader then (s, .notx)
-      else (s, (dataOp { readOnly := true, db := s.db } op).1)
+      match s.reader with
+      | none => (s, .notx)
+      | some snap => (s, (dataOp { readOnly := true, db := snap } op).1)      -- every read goes to tx.r = the snapshot
 
 def run (s : Sys) : List Op → List Obs
   | [] => []
